@@ -122,9 +122,50 @@ func c20Spouses(p *load.Prog, r *oblig.Run) {
 			spouseIdx = i
 		}
 	}
-	sites := su.CallsTo(fn, app)
 	o := r.Add("R20.i", "spouse tests in marriedOutOfRange", p.Pos(fn.Pos()), "independence of the two spouses' tests")
-	if spouseIdx < 0 || len(sites) < 2 {
+	if spouseIdx < 0 {
+		o.Unknown("appendMarriedOutOfRange has no spouse parameter")
+		return
+	}
+	// spouseParamOf: the parameter of h that reaches the spouse parameter of appendMarriedOutOfRange (h itself, or a
+	// helper that hands its own parameter on), or -1
+	var spouseParamOf func(h *ssa.Function, depth int) int
+	spouseParamOf = func(h *ssa.Function, depth int) int {
+		if h == app {
+			return spouseIdx
+		}
+		if depth > 2 || h == nil || len(h.Blocks) == 0 || !p.IsRepoFunc(h) {
+			return -1
+		}
+		for _, c := range su.Calls(h) {
+			g := c.Common().StaticCallee()
+			j := spouseParamOf(g, depth+1)
+			if j < 0 || j >= len(c.Common().Args) {
+				continue
+			}
+			for i, prm := range h.Params {
+				if c.Common().Args[j] == ssa.Value(prm) {
+					return i
+				}
+			}
+		}
+		return -1
+	}
+	type testSite struct {
+		call   *ssa.Call
+		spouse ssa.Value
+	}
+	var sites []testSite
+	for _, c := range su.Calls(fn) {
+		cv, ok := c.(*ssa.Call)
+		if !ok {
+			continue
+		}
+		if j := spouseParamOf(cv.Call.StaticCallee(), 0); j >= 0 && j < len(cv.Call.Args) {
+			sites = append(sites, testSite{cv, cv.Call.Args[j]})
+		}
+	}
+	if len(sites) < 2 {
 		o.Fail(fmt.Sprintf("%d marriage-age test site(s): one of the spouses is no longer tested", len(sites)))
 		return
 	}
@@ -146,8 +187,8 @@ func c20Spouses(p *load.Prog, r *oblig.Run) {
 			if i == j {
 				continue
 			}
-			other := si.Call.Args[spouseIdx]
-			if other == sj.Call.Args[spouseIdx] {
+			other := si.spouse
+			if other == sj.spouse {
 				continue
 			}
 			// every nil test of the other spouse: both outcomes, or neither, lead to site j within the iteration
@@ -167,9 +208,9 @@ func c20Spouses(p *load.Prog, r *oblig.Run) {
 					if !ok {
 						continue
 					}
-					t, f := reach(iff.Block().Succs[0], sj.Block()), reach(iff.Block().Succs[1], sj.Block())
+					t, f := reach(iff.Block().Succs[0], sj.call.Block()), reach(iff.Block().Succs[1], sj.call.Block())
 					if t != f {
-						bad = fmt.Sprintf("the marriage-age test at %s is only reached on one side of the nil test of the other spouse at %s: when that spouse is missing from the family, this one's married-too-young/too-old warning is lost", p.Pos(sj.Pos()), p.Pos(bo.Pos()))
+						bad = fmt.Sprintf("the marriage-age test at %s is only reached on one side of the nil test of the other spouse at %s: when that spouse is missing from the family, this one's married-too-young/too-old warning is lost", p.Pos(sj.call.Pos()), p.Pos(bo.Pos()))
 					}
 				}
 			}
